@@ -13,11 +13,30 @@ structure Preserved (I : World → Prop) : Prop where
   same : ∀ {w w'}, Same w w' → I w → I w'
   tick : ∀ {w t ev'}, executeNext w.ev = some (t, ev') → I w →
     I { w with ev := ev', dispatched := w.dispatched + 1 }
-  exec : ∀ w p c, I w → I (execCmd w p c).1
-  resume : ∀ w p f sig, I w → I (resumeFrame w p f sig).1
+  /-- commands are only ever executed by an existing process -/
+  exec : ∀ w p c, p < w.procs.size → I w → I (execCmd w p c).1
+  /-- only an existing (running) process is ever resumed -/
+  resume : ∀ w p f sig, p < w.procs.size → I w → I (resumeFrame w p f sig).1
   finish : ∀ w p v st, I w → I (finishProc w p v st)
 
 variable {I : World → Prop}
+
+theorem proc_default_of_ge {w : World} {p : Pid} (h : ¬ p < w.procs.size) : w.proc p = {} := by
+  unfold World.proc
+  simp [Array.getD_eq_getD_getElem?, Array.getElem?_eq_none (Nat.le_of_not_lt h)]
+
+theorem valid_of_script {w : World} {p : Pid} {i : Nat} {x : Cmd × String} (h : (w.proc p).script[i]? = some x) :
+    p < w.procs.size := by
+  apply Classical.byContradiction
+  intro hn
+  rw [proc_default_of_ge hn] at h
+  simp at h
+
+theorem valid_of_running {w : World} {p : Pid} (h : (w.proc p).status = .running) : p < w.procs.size := by
+  apply Classical.byContradiction
+  intro hn
+  rw [proc_default_of_ge hn] at h
+  cases h
 
 theorem Preserved.runScript (hI : Preserved I) : ∀ fuel w p, I w → I (runScript fuel w p) := by
   intro fuel
@@ -29,8 +48,9 @@ theorem Preserved.runScript (hI : Preserved I) : ∀ fuel w p, I w → I (runScr
     dsimp only
     split
     · exact hI.finish _ _ _ _ (hI.same (emit_same _ _) h)
-    · rename_i c text _
-      have h1 := hI.exec _ p c (hI.same (emit_same w s!"c {p} {(w.proc p).pc} {w.now} {text}") h)
+    · rename_i c text hsc
+      have hv : p < w.procs.size := valid_of_script hsc
+      have h1 := hI.exec _ p c (by simpa [World.emit] using hv) (hI.same (emit_same w s!"c {p} {(w.proc p).pc} {w.now} {text}") h)
       split
       · rename_i w' v extra heq
         rw [heq] at h1
@@ -51,8 +71,9 @@ theorem Preserved.resumeProc (hI : Preserved I) (w : World) (p : Pid) (sig : Int
   · exact hI.same (fail_same _ _) h
   · split
     · exact hI.same (fail_same _ _) h
-    · rename_i f _
-      have h1 := hI.resume _ p f sig (hI.same (modProc_same w p (fun y => { y with blocked := none }) (fun _ => rfl)) h)
+    · rename_i hst _ f _
+      have hv : p < w.procs.size := valid_of_running (Decidable.not_not.1 hst)
+      have h1 := hI.resume _ p f sig (by simpa using hv) (hI.same (modProc_same w p (fun y => { y with blocked := none }) (fun _ => rfl)) h)
       split
       · rename_i w' v extra heq
         rw [heq] at h1
@@ -118,8 +139,8 @@ theorem Preserved.runAll (hI : Preserved I) : ∀ fuel w, I w → I (runAll fuel
 theorem Preserved.and {J : World → Prop} (hI : Preserved I) (hJ : Preserved J) : Preserved (fun w => I w ∧ J w) where
   same hs h := ⟨hI.same hs h.1, hJ.same hs h.2⟩
   tick he h := ⟨hI.tick he h.1, hJ.tick he h.2⟩
-  exec w p c h := ⟨hI.exec w p c h.1, hJ.exec w p c h.2⟩
-  resume w p f sig h := ⟨hI.resume w p f sig h.1, hJ.resume w p f sig h.2⟩
+  exec w p c hv h := ⟨hI.exec w p c hv h.1, hJ.exec w p c hv h.2⟩
+  resume w p f sig hv h := ⟨hI.resume w p f sig hv h.1, hJ.resume w p f sig hv h.2⟩
   finish w p v st h := ⟨hI.finish w p v st h.1, hJ.finish w p v st h.2⟩
 
 end CimbaModel.Sim
